@@ -30,57 +30,7 @@ ASSUMPTIONS = [
 ]
 
 
-class AssocDict:
-    """dict stand-in without hashing (FileStorage._newIndexes is the documented hook for using
-    "something other than builtin dict" as the transaction index): symbolic oids stay symbolic."""
-
-    def __init__(self):
-        self.kv = []
-
-    def _find(self, k):
-        for i, (k2, _) in enumerate(self.kv):
-            if k2 == k:
-                return i
-        return -1
-
-    def get(self, k, default=None):
-        i = self._find(k)
-        return default if i < 0 else self.kv[i][1]
-
-    def __getitem__(self, k):
-        i = self._find(k)
-        if i < 0:
-            raise KeyError(k)
-        return self.kv[i][1]
-
-    def __setitem__(self, k, v):
-        i = self._find(k)
-        if i < 0:
-            self.kv.append((k, v))
-        else:
-            self.kv[i] = (k, v)
-
-    def __contains__(self, k):
-        return self._find(k) >= 0
-
-    def __len__(self):
-        return len(self.kv)
-
-    def __iter__(self):
-        return iter([k for k, _ in self.kv])
-
-    def keys(self):
-        return [k for k, _ in self.kv]
-
-    def items(self):
-        return list(self.kv)
-
-    def clear(self):
-        self.kv = []
-
-    def update(self, other):
-        for k, v in other.items():
-            self[k] = v
+from zverif.symenv.containers import AssocDict  # noqa: E402
 
 
 def _fs_class():
